@@ -1,3 +1,4 @@
+import re
 """C02 -- a ULT never runs on two streams at once; its context survives every
 switch (structural part: assembly save/restore discipline + publication order)."""
 from abtverif import canon, asmcheck, seq, cfg
@@ -28,6 +29,7 @@ DECLINED = ["'stack contents exactly as it left them' and 'a stack no other live
             "architectures other than the x86-64 System V ELF file that the build compiles"]
 ASSUMPTIONS = ["System V x86-64 calling convention", "assembler/linker preserve instruction order"]
 RULES_DOC = dict(common.SHARED_DOC)
+RULES_DOC["R13"] = "the stack region a ULT reports is the region it runs on: every value ABT_thread_get_attr stores into the attribute's p_stack is NULL or <saved stack top> - <saved stack size> of the same context, with nothing applied to either (the inverse of how creation derives the stack top from a user-supplied base); an application that recycles a queried stack must not be handed bytes of a neighbouring live ULT's stack"
 RULES_DOC["R7"] = "= C03.R1: a join (and so a free of the descriptor and stack) returns only after it observed TERMINATED, i.e. after the target left its stack for good"
 RULES_DOC["R8"] = "= C12.R3: a unit that is suspending is not terminated (and freed) inside its suspend callback while its context is still linked for resumption"
 RULES_DOC["R12"] = "= C15.R7: when a local stack pool overflows, the buckets it keeps move to the lower slots and the returned ones are forgotten: a bucket that is both in the global pool and still referenced locally hands the same stack to two live ULTs"
@@ -670,6 +672,24 @@ def rule_R6(P, rep):
     rep.min_instances("R6", 12)
 
 
+def rule_R13(P, rep):
+    F = P.fn("ABT_thread_get_attr", "src/thread.c", flat=True)
+    n = 0
+    for bid, i, lh, rh in F.stores():
+        fo = F.field_of(lh)
+        if not fo or fo[1] != "p_stack" or rh is None:
+            continue
+        txt = canon.expr(F, rh)
+        if txt in (0, "0"):
+            continue
+        n += 1
+        m = re.match(r"^ABTD_ythread_context_get_stacktop\((.*)\) - ABTD_ythread_context_get_stacksize\((.*)\)$", str(txt))
+        ok = bool(m) and m.group(1) == m.group(2) and "(" not in m.group(1).replace("&", "")
+        rep.ob("R13", "ABT_thread_get_attr reports the stack base as saved top - saved size", ok, "reported base: %s" % txt,
+               loc=F.loc(i), site="get_attr/p_stack")
+    rep.need(n >= 1, "ABT_thread_get_attr never stores a stack base into the attribute")
+
+
 def run(P, rep, tier):
     common.run_shared(P, rep, which=("X1", "X2"))
     rules_asm(P, rep)
@@ -687,3 +707,4 @@ def run(P, rep, tier):
     common.borrow(rep, P, C12.rule_R4, "R11")
     from . import C15
     common.borrow(rep, P, C15.rule_R7, "R12")
+    rule_R13(P, rep)
